@@ -154,8 +154,8 @@ def run_case(case, ctx):
   nz = False
   for el in p["elements"]:
     s = el["name"]
-    eamref.check_series(ctx, "embed", el["F"], ref.embed(s), drho, rhoidx, "F[%s] route=%s" % (s, route))
-    eamref.check_series(ctx, "density", el["rho"], ref.density(s), dr, ridx, "rho[%s] route=%s" % (s, route))
+    eamref.check_series(ctx, "embed", el["F"], ref.embed(s), drho, rhoidx, "F[%s] route=%s" % (s, route), fmt="setfl")
+    eamref.check_series(ctx, "density", el["rho"], ref.density(s), dr, ridx, "rho[%s] route=%s" % (s, route), fmt="setfl")
     nz = nz or any(float(t) != 0.0 for t in el["F"]) or any(float(t) != 0.0 for t in el["rho"])
   order = ref.order
   declared = 0
@@ -167,6 +167,6 @@ def run_case(case, ctx):
       ctx.cls("pair_declared")
     else:
       ctx.cls("pair_zero_filled")
-    eamref.check_series(ctx, "rphi", toks, o, dr, ridx, "r*phi[%s,%s] route=%s" % (a, b, route), scale_r=True)
+    eamref.check_series(ctx, "rphi", toks, o, dr, ridx, "r*phi[%s,%s] route=%s" % (a, b, route), scale_r=True, fmt="setfl")
   ctx.count("blocks", 2 * len(order) + len(p["rphi"]))
   ctx.nontrivial(nz and (len(order) >= 2 or declared >= 1))
